@@ -2,8 +2,9 @@
    the three naming schemes cannot collide, every name is a legal identifier. *)
 From Coq Require Import String.
 From Coq Require Import List NArith ZArith Bool Arith Lia ZifyBool ZifyNat ZifyN.
+From AV Require Import proofs.BitsProofs.
 From AV Require Import model.Proto model.Chain model.Program model.Ir model.Ast model.Bits
-  model.Decompile model.Naming model.Build proofs.BitsProofs proofs.BuildTranslateAux.
+  model.Decompile model.Naming model.Build proofs.BuildTranslateAux.
 Import ListNotations.
 
 (* ------------------------------------------------------------------ *)
